@@ -29,7 +29,7 @@ EXPLANATION = (
     "NOT decided: equality of failure_cases with the set of offending cells."
 )
 LEVEL_RULE = "one obligation per handler / lazy use / validate method / fenced call"
-FLOORS = {"R1": 4, "R2": 20, "R3": 12, "R4": 6, "R5": 3, "R6": 6, "R7": 5, "R8": 1, "R9": 3, "R10": 1}
+FLOORS = {"R1": 4, "R2": 20, "R3": 12, "R4": 6, "R5": 3, "R6": 6, "R7": 5, "R8": 1, "R9": 3, "R10": 1, "R11": 1}
 
 EH = "pandera/api/base/error_handler.py::ErrorHandler"
 # A handler may drop the caught SchemaError only when the fenced body does nothing but expand a regex column name:
@@ -611,8 +611,45 @@ def r10_collect_per_element(ctx):
     ctx.ob("R10", first, "collecting handlers sit inside the loops they guard (pandas and polars backends)", True, f"{n} functions analysed")
 
 
+def r11_sequential_parts_both_reported(ctx):
+    """An API-level validate that validates two parts of the object one after the other (SeriesSchema: the values through
+    the array backend, then `self.index.validate`) reports the failures of *both* in lazy mode only if the first call is
+    fenced: unfenced, its SchemaErrors leaves the method before the second part has run, and the lazy report omits every
+    error of the second part (they surface one by one after the reported cells have been fixed)."""
+    from ..callgraph import enclosing_tries
+    ix = ctx.ix
+    n = 0
+    for mp in ("pandera/api/pandas/array.py", "pandera/api/pandas/container.py", "pandera/api/polars/container.py", "pandera/api/polars/components.py"):
+        m = ix.by_path.get(mp)
+        if m is None:
+            continue
+        for f in m.all_functions:
+            if f.cls is None or f.name not in ("validate", "_validate"):
+                continue
+            stages = []
+            for st in function_stmts(f):
+                if isinstance(st, (ast.Assign, ast.Return, ast.Expr)) and isinstance(getattr(st, "value", None), ast.Call):
+                    c = st.value
+                    if callee_last(c) in ("validate", "_validate") and isinstance(c.func, ast.Attribute) and "lazy" in {k.arg for k in c.keywords}:
+                        stages.append((st, c))
+            recvs = {txt(c.func.value) for _, c in stages}
+            if len(stages) < 2 or len(recvs) < 2:
+                continue
+            n += 1
+            first_st, first = stages[0]
+            fenced = any(any("SchemaErrors" in handler_names(h) or h.type is None for h in t.handlers) for t in enclosing_tries(first, f.node))
+            ctx.ob("R11", f, f"{f.short}: `{txt(stages[1][1].func)}` still runs (lazy) when `{txt(first.func)}` has raised SchemaErrors", fenced,
+                   "first part fenced, errors merged" if fenced else
+                   f"`{txt(first.func)}(...)` (line {first.lineno}) is not fenced: in lazy mode its SchemaErrors leaves {f.name} before `{txt(stages[1][1].func)}` "
+                   f"(line {stages[1][1].lineno}) runs, so every error of the second part is missing from the report", f.loc(first))
+    ctx.stats["sequential_validations"] = n
+    if n < 1:
+        raise AnalysisError("no API-level validate with two sequential parts found (expected SeriesSchema.validate)")
+
+
 def run(ctx):
     r10_collect_per_element(ctx)
+    r11_sequential_parts_both_reported(ctx)
     r9_case_attribution(ctx)
     r8_per_column_schema(ctx)
     r7_column_attribution(ctx)
